@@ -66,14 +66,15 @@ static int structured(cat_var_type t, int ds)
                 int nmix = (ds <= 6) ? (1 << k) : 3;
                 if (t == CAT_VAR_BUF_HEX) nmix = (k == 0) ? 1 : 2;       /* digit case */
                 for (int mi = 0; mi < nmix; mi++) {
-                        unsigned mix;
-                        if (t == CAT_VAR_BUF_HEX) mix = mi ? ~0u : 0;
-                        else if (ds <= 6) mix = (unsigned)mi;
-                        else mix = mi == 0 ? 0 : mi == 1 ? ~0u : (k ? 1u << (k - 1) : 0);
+                        /* mode 0 no unit escaped, 1 all, 2 only the last, 3 per-unit bitmask */
+                        int mode; unsigned mix = 0;
+                        if (t == CAT_VAR_BUF_HEX) mode = mi ? 1 : 0;
+                        else if (ds <= 6) { mode = 3; mix = (unsigned)mi; }
+                        else mode = mi;
                         int n = 0;
                         if (t == CAT_VAR_BUF_STRING) s[n++] = '"';
                         for (int u = 0; u < k; u++) {
-                                int esc = (mix >> u) & 1;
+                                int esc = mode == 0 ? 0 : mode == 1 ? 1 : mode == 2 ? (u == k - 1) : (int)((mix >> u) & 1);
                                 if (t == CAT_VAR_BUF_HEX) { s[n++] = esc ? 'a' : 'A'; s[n++] = (uint8_t)('0' + (u % 10)); }
                                 else if (esc) { s[n++] = '\\'; s[n++] = (uint8_t)("n\"\\"[u % 3]); }
                                 else s[n++] = (uint8_t)('a' + (u % 20));
@@ -104,6 +105,7 @@ static int structured(cat_var_type t, int ds)
 int main(int argc, char **argv)
 {
         sw_init(argc, argv, "buffers");
+        int lite = sw_argi(argc, argv, "--lite", 0);
         static const int DS[] = {1, 2, 3, 4, 5, 6, 7, 8, 16, 63, 64};
         int idx = 0;
         for (int ti = 0; ti < 2; ti++) {
@@ -114,6 +116,8 @@ int main(int argc, char **argv)
                                         if (idx % SW.nshards != SW.shard) continue;
                                         int ds = DS[di];
                                         if (!SW.tier && pos == 1 && ds > 4) continue;
+                                        if (lite && !(ds <= 3 || ds == 8 || ds >= 63)) continue;
+                                        if (lite && pos == 1) continue;
                                         if (sw_expired()) goto out;
                                         build(t, ds, (cat_var_access)acc, 3, pos, (idx & 1));
                                         snprintf(SW.extra, sizeof SW.extra, "type=%s data_size=%d access=%d pos=%d", ti ? "string" : "hexbuf", ds, acc, pos);
